@@ -81,7 +81,8 @@ def cfgs_cycle(tier, rng):
            cfgmod.make(n=3, head=1, manual=0, limit=2, cap=2, plans=1, log="off", inj_state=1, defstate=0),
            # two and three injected bases (the variadic injection chain: every phase callback and query reaches each of them once, in order)
            cfgmod.make(n=2, head=1, manual=0, limit=2, cap=2, plans=0, log="off", inj_state=2, inj_root=2),
-           cfgmod.make(n=3, head=1, manual=0, limit=2, cap=2, plans=1, log="off", inj_state=3, inj_root=0, order=1)]
+           cfgmod.make(n=3, head=1, manual=0, limit=2, cap=2, plans=1, log="off", inj_state=3, inj_root=0, order=1),
+           cfgmod.make(n=130, head=1, manual=0, limit=2, cap=2, plans=0, log="off")]          # more than 128 states: every level of the dispatch tree, ids that need 8 bits
     for k in range(4 if tier == "quick" else 10):
         out.append(cfgmod.make(n=pick(rng, [1, 2, 3, 5, 9]), head=k % 2, manual=0, limit=2, cap=2, plans=(k // 2) % 2, log="off",
                                defroot=pick(rng, [FULL, FULL, 0x0fff & ~0x8]), defstate=pick(rng, [FULL, FULL, FULL & ~0x10])))
@@ -270,11 +271,11 @@ SPECS = {
                        lambda ls, c: has(ls, lambda l: l.kind == "did" and l.act[0] == "cancel" and l.res == "ok"), extra=guard_trees),
     "C04": MachineSpec("C04", T.p_C04, P_LIMIT, cfgs_limit, lambda t: 100 if t == "quick" else 500,
                        lambda ls, c: max([sum(1 for _, e in cl.ev if e.kind == "cb" and e.meth == "exitGuard") for cl in monitors.calls(ls)] or [0]) >= c["limit"], extra=ping_pong),
-    "C05": MachineSpec("C05", T.p_C05, P_CYCLE, cfgs_cycle, lambda t: 80 if t == "quick" else 400,
+    "C05": MachineSpec("C05", T.p_C05, lambda c: P_CYCLE.with_(p_pair=0.5) if c["plans"] else P_CYCLE, cfgs_cycle, lambda t: 80 if t == "quick" else 400,
                        lambda ls, c: has(ls, lambda l: l.kind == "did" and l.res == "ok") and has(ls, lambda l: l.kind == "cb" and l.meth in T.PHASE)),
-    "C06": MachineSpec("C06", T.p_C06, P_VIEWS, cfgs_views, lambda t: 60 if t == "quick" else 300,
+    "C06": MachineSpec("C06", T.p_C06, lambda c: P_VIEWS.with_(p_pair=0.6) if c["plans"] else P_VIEWS, cfgs_views, lambda t: 60 if t == "quick" else 300,
                        lambda ls, c: has(ls, guard_cb) and has(ls, lambda l: l.kind == "did" and l.act[0].startswith("change") and l.res == "ok")),
-    "C07": MachineSpec("C07", T.p_C07, P_PAY, cfgs_payloads, lambda t: 60 if t == "quick" else 300,
+    "C07": MachineSpec("C07", T.p_C07, lambda c: P_PAY.with_(p_pair=0.5) if c["plans"] else P_PAY, cfgs_payloads, lambda t: 60 if t == "quick" else 300,
                        lambda ls, c: has(ls, lambda l: l.kind == "cb" and l.meth in ("enter", "reenter") and l.f.get("cur", "-")[-1:] not in ("-", ""))),
     "C08": MachineSpec("C08", T.p_C08, P_PLANS, cfgs_plans, lambda t: 80 if t == "quick" else 400,
                        lambda ls, c: has(ls, lambda l: l.kind == "log" and l.what == "transition" and l.args[0] != "255"), extra=plan_templates),
@@ -662,7 +663,7 @@ def check_C18(run):
 CHECKS["C18"] = check_C18
 
 # ---------------------------------------------------------------------------------------------- C19
-P_NEUTRAL = BASE.with_(n_ops=(10, 30), w_ops=dict(update=10, react=5, query=2, change=5, immChange=6, exit_enter=3, destroy_construct=1, second_instance=1),
+P_NEUTRAL = BASE.with_(n_ops=(10, 30), w_ops=dict(update=10, react=5, query=2, change=5, immChange=6, exit_enter=3, destroy_construct=1, second_instance=1, copy=2),
                        w_meth=dict(guard=5, phase=4, life=1, plancb=0, query=1), w_act=dict(change=7, cancel=4), p_logger_at_construct=0.0)
 
 def cfgs_features(tier, rng):
@@ -763,6 +764,19 @@ def check_C19(run):
     spec = MachineSpec("C19", T.p_all, P_NEUTRAL, cfgs_features, lambda t: 20 if t == "quick" else 80,
                        lambda ls, c: has(ls, guard_cb) and has(ls, life_cb), monitor_ids=["C01", "C02", "C03"])
     engine.run_machine(run, spec)
+    # ... the same feature-neutral scripts on sanitizer builds of a few switch combinations: a compiled-in but unused feature must not touch memory either
+    old_env = {k: os.environ.get(k) for k in SAN_ENV}; os.environ.update(SAN_ENV)
+    try:
+        def cfgs_features_san(tier, rng):
+            sel = [(1, 0, 0, "off"), (0, 0, 0, "on"), (1, 1, 1, "verbose")] if tier == "quick" else [(p, s, h, lg) for p in (0, 1) for s in (0, 1) for h in (0, 1) for lg in ("off", "on")]
+            return [cfgmod.make(n=[3, 2, 4][k % 3], head=1, manual=k % 2, limit=2, cap=2, payload=[0, 2, 5][k % 3], plans=p, serial=s, history=h, log=lg) for k, (p, s, h, lg) in enumerate(sel)]
+        spec_san = MachineSpec("C19", T.p_all, P_NEUTRAL, cfgs_features_san, lambda t: 15 if t == "quick" else 50, lambda ls, c: has(ls, life_cb),
+                               extra_flags=SAN_GXX, monitor_ids=["C18"], variants=("include",) if tier == "quick" else ("include", "development"))
+        engine.run_machine(run, spec_san)
+    finally:
+        for k, v in old_env.items():
+            if v is None: os.environ.pop(k, None)
+            else: os.environ[k] = v
     # ... and programs that use ONE feature (plans) while the other switches vary: enabling serialization / history / logging must not change them
     def cfgs_plans_crossed(tier, rng):
         out = []
